@@ -13,6 +13,17 @@ var (
 	_ vivid.ActorRef = (*Ref)(nil)
 )
 
+func init() {
+	// 使 OnKill / OnKilled 等携带 ActorRef 的内置消息可以在远程节点上重建引用
+	vivid.RegisterActorRefFactory(func(address, path string) (vivid.ActorRef, error) {
+		ref, err := NewRef(address, path)
+		if err != nil {
+			return nil, err
+		}
+		return ref, nil
+	})
+}
+
 const agentFutureMarker = "@future@"
 const LocalAddress = "localhost"
 
